@@ -201,6 +201,12 @@ func (m *model) apply(h uint32, txs []blockTx) []finding {
 	added := map[common.Uint256]bool{}
 	descP := map[*prodLedger][]string{}
 	descC := map[*crLedger][]string{}
+	// ledgers created by a registration in this block.  The node looks the payee of a deposit output up in maps that
+	// the registration fills only when the block is committed (History), so a payment by ANOTHER transaction of the
+	// registering block is not counted (TotalAmount stays below the coins; they cannot be returned).  That is
+	// under-counting, not a withdrawal above the available amount: such a ledger is left out of the comparison.
+	fresh := map[any]common.Uint256{}
+	const uncounted = "observation (outside C28): a payment to a deposit address in the block that registers its owner is not counted by the node"
 
 	for _, bt := range txs {
 		tx := bt.tx
@@ -237,6 +243,7 @@ func (m *model) apply(h uint32, txs []blockTx) []finding {
 					key := m.ownerKey(i)
 					if m.producers[key.Deposit] == nil {
 						m.producers[key.Deposit] = &prodLedger{idx: i, key: key, coins: newCoins()}
+						fresh[m.producers[key.Deposit]] = hash
 					}
 					for j := 0; j < m.nProd; j++ {
 						if j != i && string(info.NodePublicKey) == string(m.ownerKey(j).PK) {
@@ -258,6 +265,7 @@ func (m *model) apply(h uint32, txs []blockTx) []finding {
 					key := m.crKey(i)
 					if m.crs[key.Deposit] == nil {
 						m.crs[key.Deposit] = &crLedger{idx: i, key: key, coins: newCoins()}
+						fresh[m.crs[key.Deposit]] = hash
 					}
 				}
 			}
@@ -271,12 +279,22 @@ func (m *model) apply(h uint32, txs []blockTx) []finding {
 			rk := common2.NewOutPoint(hash, uint16(i)).ReferKey()
 			if l := m.producers[o.ProgramHash]; l != nil {
 				l.coins.utxo[rk] = o.Value
+				if by, ok := fresh[l]; ok && by != hash {
+					if _, done := m.tainted[l]; !done {
+						m.tainted[l] = uncounted
+					}
+				}
 				if l == spentP {
 					change += o.Value
 				}
 			}
 			if l := m.crs[o.ProgramHash]; l != nil {
 				l.coins.utxo[rk] = o.Value
+				if by, ok := fresh[l]; ok && by != hash {
+					if _, done := m.tainted[l]; !done {
+						m.tainted[l] = uncounted
+					}
+				}
 				if l == spentC {
 					change += o.Value
 				}
@@ -461,6 +479,12 @@ func (m *model) observeRoles(h uint32) {
 					l.rereleased = true
 				}
 				l.released = true
+			}
+			// same root cause, other automatic lock operation: when DPoS 2.0 becomes active the lock of a 1.0&2.0
+			// producer is reduced to the 2.0 minimum - also when it had been released already (a canceled producer
+			// moved to Illegal by evidence, see the listed finding)
+			if h == active && pre.identity == dstate.DPoSV1V2 && l.released {
+				l.rereleased = true
 			}
 		}
 		l.role = prodRole{exists: true, state: p.State(), identity: p.Identity(), cancelHeight: p.CancelHeight(), stakeUntil: p.Info().StakeUntil}
